@@ -156,12 +156,19 @@ def random_requests(rng, R, C, th, tw, k):
     return out
 
 
-def exhaustive_requests(rng, R, C):
-    """every non-empty region of an R x C matrix, argument forms drawn per request, both conventions; plus, per
+def exhaustive_requests(rng, R, C, pure_forms=False):
+    """every non-empty region of an R x C matrix (with `pure_forms`: as 1-based numbers, as 0-based indices, as negative
+    values, and) with argument forms drawn per request, both conventions; plus, per
     axis, every start/end value in -n-3 .. n+3 (and None) against a fixed other axis"""
     out = []
     for a, b in itertools.combinations(range(R + 1), 2):
         for c, d in itertools.combinations(range(C + 1), 2):
+            if pure_forms:
+                out.append((a + 1, b + 1, c + 1, d + 1, False))                                  # 1-based numbers
+                out.append((a, b, c, d, True))                                                   # 0-based indices
+                # negative wherever a negative alias exists (an end equal to the size has none: None)
+                ai = rng.random() < 0.5
+                out.append((a - R, b - R if b < R else None, c - C, d - C if d < C else None, ai))
             ai = rng.random() < 0.5
             rs, re, _ = forms(a, b, R, ai, rng)
             cs, ce, _ = forms(c, d, C, ai, rng)
@@ -293,9 +300,13 @@ def _check_slide(ctx, cfg, requests, reqs, pending, exhaustive=False):
     want = tpm.copy()
     for (i, j) in cfg['omit']:
         want[i * th:(i + 1) * th, j * tw:(j + 1) * tw] = 0
-    via_file = cfg['idx'] % 4 == 1
-    if via_file:
+    entry = ('Image.from_dataset', 'imread', 'Image.from_dataset(copy)', 'imread-lazy')[cfg['idx'] % 4] if not exhaustive else 'Image.from_dataset'
+    if entry == 'imread':
         st, im = _fetch(lambda: hd.imread(io.BytesIO(to_bytes(ds))))
+    elif entry == 'imread-lazy':
+        st, im = _fetch(lambda: hd.imread(io.BytesIO(to_bytes(ds)), lazy_frame_retrieval=True))
+    elif entry == 'Image.from_dataset(copy)':
+        st, im = _fetch(hd.Image.from_dataset, pydicom.dcmread(io.BytesIO(to_bytes(ds))), copy=True)
     else:
         st, im = _fetch(hd.Image.from_dataset, ds, copy=False)
     if st == 'err':
@@ -342,7 +353,8 @@ def _check_slide(ctx, cfg, requests, reqs, pending, exhaustive=False):
         ctx.case(sample=case if (cls == 'region' and ctx.evaluations % 211 == 0) else None, nontrivial_key=nontriv,
                  kind='slide', organisation='TILED_FULL' if cfg['full'] else 'TILED_SPARSE', request_class=cls,
                  outcome='ok' if st == 'ok' else val.split(':')[0], convention='0-based' if ai else '1-based',
-                 matrix=f'{min(R, 8)}x{min(C, 8)}' if not exhaustive else 'exhaustive', tile=f'{th}x{tw}',
+                 matrix=f'{min(R, 8)}x{min(C, 8)}' if not exhaustive else 'exhaustive', tile=f'{th}x{tw}', entry=entry,
+                 remainder=(min(R % th, 2), min(C % tw, 2)),
                  divides=(R % th == 0, C % tw == 0))
         # ---- oracle
         if cls == 'refuse':
@@ -868,7 +880,7 @@ def _exhaustive_configs(ctx):
     # every (matrix size <= 7, tile size <= 6) pair on each axis; tile sizes above the matrix size add nothing new on that axis
     rows = [(R, th) for R in range(1, 8) for th in range(1, 7) if th <= R + 1]
     out = []
-    for rep in range(3):        # three independent pairings of the row axis list with the column axis list
+    for rep in range(2):        # two independent pairings of the row axis list with the column axis list
         r = ctx.rng('exh', rep)
         cols = rows[:]
         r.shuffle(cols)
@@ -913,8 +925,9 @@ def run(ctx):
             order = list(range(nt))
             r.shuffle(order)
         cfg = dict(idx=100000 + k, R=e['R'], C=e['C'], th=e['th'], tw=e['tw'], full=full, samples=1, bits=8, omit=[], order=order)
-        _check_slide(ctx, cfg, exhaustive_requests(r, e['R'], e['C']), reqs, pending, exhaustive=True)
+        _check_slide(ctx, cfg, exhaustive_requests(r, e['R'], e['C'], pure_forms=ctx.tier != 'quick'), reqs, pending, exhaustive=True)
         ctx.exhaustive.append(f"all regions of {e['R']}x{e['C']} tiled {e['th']}x{e['tw']} "
+                              + ('in 1-based, 0-based, negative and a mixed form ' if ctx.tier != 'quick' else 'in a mixed form ') +
                               f"({'TILED_FULL' if full else 'TILED_SPARSE, permuted frames'}) + every per-axis start/end in -n-3..n+3")
         if len(reqs) > 200:
             _settle(ctx, reqs, pending)
